@@ -32,8 +32,15 @@ static long long nvd_total;
 static long long call_dk[MAXCALL][2], call_dv[MAXCALL];
 static size_t n_call_dk, n_call_dv;
 
+/* NULL is a key like any other (callers store small integers cast to pointers): with null_mode the key object
+ * (class 1, pointer 1) is handed to the library as the NULL pointer */
+static int null_mode;
+#define KEY(c, p) ((null_mode && (c) == 1 && (p) == 1) ? NULL : (void *)keys[c][p])
+static const struct key_obj *key_of(const void *k) {
+    return k ? (const struct key_obj *)k : keys[1][1];
+}
 static uint64_t key_hash(const void *k) {
-    int c = ((const struct key_obj *)k)->cls;
+    int c = key_of(k)->cls;
     switch (hash_mode) {
         case 1:
             return 7; /* everything collides */
@@ -44,10 +51,10 @@ static uint64_t key_hash(const void *k) {
     }
 }
 static bool key_eq(const void *a, const void *b) {
-    return ((const struct key_obj *)a)->cls == ((const struct key_obj *)b)->cls;
+    return key_of(a)->cls == key_of(b)->cls;
 }
 static void key_destroy(void *k) {
-    struct key_obj *o = k;
+    struct key_obj *o = k ? k : keys[1][1];
     o->destroyed++;
     if (n_call_dk < MAXCALL) {
         call_dk[n_call_dk][0] = o->cls;
@@ -116,7 +123,7 @@ static void state(void) {
             break;
         }
         const struct aws_linked_hash_table_node *node = AWS_CONTAINER_OF(it, struct aws_linked_hash_table_node, node);
-        const struct key_obj *k = node->key;
+        const struct key_obj *k = (node->key || null_mode) ? key_of(node->key) : NULL;
         const struct val_obj *v = node->value;
         kc[n] = k ? k->cls : -1;
         kp[n] = k ? k->ptr : -1;
@@ -160,6 +167,7 @@ int main(int argc, char **argv) {
             size_t max = (size_t)vh_argi(2);
             int dk = (int)vh_argi(3), dv = (int)vh_argi(4);
             hash_mode = (int)vh_argi(5);
+            null_mode = vh_ntok > 6 ? (int)vh_argi(6) : 0;
             for (int c = 1; c <= NC; ++c) {
                 for (int p = 1; p <= NP; ++p) {
                     free(keys[c][p]);
@@ -229,7 +237,7 @@ int main(int argc, char **argv) {
         void *out = NULL;
         if (vh_is("PUT")) {
             int c = (int)vh_argi(1), p = (int)vh_argi(2), v = (int)vh_argi(3);
-            int rc = kind == 1 ? aws_linked_hash_table_put(&table, keys[c][p], vals[v]) : aws_cache_put(cache, keys[c][p], vals[v]);
+            int rc = kind == 1 ? aws_linked_hash_table_put(&table, KEY(c, p), vals[v]) : aws_cache_put(cache, KEY(c, p), vals[v]);
             vh_begin("Put");
             kv_args(c, p);
             vh_int("v", v);
@@ -238,10 +246,10 @@ int main(int argc, char **argv) {
             int c = (int)vh_argi(1), p = (int)vh_argi(2), mv = vh_is("FINDMV");
             int rc;
             if (kind == 1) {
-                rc = mv ? aws_linked_hash_table_find_and_move_to_back(&table, keys[c][p], &out)
-                        : aws_linked_hash_table_find(&table, keys[c][p], &out);
+                rc = mv ? aws_linked_hash_table_find_and_move_to_back(&table, KEY(c, p), &out)
+                        : aws_linked_hash_table_find(&table, KEY(c, p), &out);
             } else {
-                rc = aws_cache_find(cache, keys[c][p], &out);
+                rc = aws_cache_find(cache, KEY(c, p), &out);
             }
             vh_begin(mv && kind == 1 ? "FindMove" : "Find");
             kv_args(c, p);
@@ -249,7 +257,7 @@ int main(int argc, char **argv) {
             vh_int("v", val_id(out));
         } else if (vh_is("REMOVE")) {
             int c = (int)vh_argi(1), p = (int)vh_argi(2);
-            int rc = kind == 1 ? aws_linked_hash_table_remove(&table, keys[c][p]) : aws_cache_remove(cache, keys[c][p]);
+            int rc = kind == 1 ? aws_linked_hash_table_remove(&table, KEY(c, p)) : aws_cache_remove(cache, KEY(c, p));
             vh_begin("Remove");
             kv_args(c, p);
             vh_rc(rc);
@@ -270,7 +278,7 @@ int main(int argc, char **argv) {
             for (struct aws_linked_list_node *it = aws_linked_list_begin(list); it && it != aws_linked_list_end(list);
                  it = it->next) {
                 struct aws_linked_hash_table_node *node = AWS_CONTAINER_OF(it, struct aws_linked_hash_table_node, node);
-                if (((const struct key_obj *)node->key)->cls == c) {
+                if (key_of(node->key)->cls == c) {
                     found = node;
                     break;
                 }
